@@ -90,7 +90,8 @@ def gen(rng, tier):
                                    "nreq": limit + 3, "tag": n, "seed": rng.randrange(1 << 30), "app_delay": 0, "app_header": hdr}
         # ---- max_requests (tier B) -------------------------------------------------------------
         for be in ("asyncio", "trio"):
-            for mr, jitter in ((1, 0), (3, 0), (2, 1), (2, 5)):
+            # (0 is a limit like any other: "more than 0 requests" is the first one; only None means no limit)
+            for mr, jitter in ((1, 0), (3, 0), (2, 1), (2, 5), (0, 0), (0, 2)):
                 for k in range(1 if tier == "quick" else 8):
                     n += 1
                     yield {"family": "max_requests", "kind": "max_requests", "backend": be, "max_requests": mr, "jitter": jitter, "tag": n, "rep": k, "how": "h1"}
